@@ -66,6 +66,21 @@ Theorem c13_ipset_plugin (srt : list pfx -> list pfx) :
 Proof. exact (ipset_iff srt). Qed.
 Print Assumptions c13_ipset_plugin.
 
+(** Composition to any depth: whatever sets reference whatever sets, the matcher
+    of a set answers yes exactly when an entry loaded ANYWHERE below it (own
+    ips/files or any directly or indirectly referenced set) covers the address;
+    and coverage of a concatenation is the disjunction (union of the members). *)
+Theorem c13_set_tree_union (srt : list pfx -> list pfx) :
+  (forall l, Permutation l (srt l)) -> (forall l, Sorted base_le (srt l)) ->
+  forall (s : setdef) q, group_lookup (build_set srt s) q = Some (qcov (load (all_entries s)) q).
+Proof. exact (set_tree_iff srt). Qed.
+Print Assumptions c13_set_tree_union.
+
+Theorem c13_union_is_disjunction es1 es2 q :
+  qcov (load (es1 ++ es2)) q = qcov (load es1) q || qcov (load es2) q.
+Proof. exact (eq_trans (f_equal (fun l => qcov l q) (load_app es1 es2)) (qcov_app (load es1) (load es2) q)). Qed.
+Print Assumptions c13_union_is_disjunction.
+
 (** ... where every sorted list satisfies [asc] (well formed, each element ends
     before the next begins), so sets built by the plugin qualify. *)
 Theorem c13_sorted_list_is_asc (srt : list pfx -> list pfx) :
